@@ -535,7 +535,7 @@ impl Vm {
   /// make `error` the fiber's in-flight error and start unwinding
   #[verifier::external_body]
   pub fn set_error(&mut self, error: InstRef) -> (r: ExecutionSignal)
-    ensures r == ExecutionSignal::RuntimeError, final(self).fiber.error == Some(error), final(self).raised == old(self).raised, final(self).ip == old(self).ip, final(self).ran == old(self).ran,
+    ensures r == ExecutionSignal::RuntimeError, final(self).fiber.error == Some(error), final(self).raised == old(self).raised, final(self).ip == old(self).ip, final(self).ran == old(self).ran, final(self).fiber.stack == old(self).fiber.stack,
             final(self).fiber.handlers == old(self).fiber.handlers, final(self).fiber.frames == old(self).fiber.frames, final(self).constants == old(self).constants, final(self).builtin == old(self).builtin,
             final(self).cache == old(self).cache, final(self).heap == old(self).heap, final(self).called == old(self).called, final(self).call_log == old(self).call_log, final(self).capture_stub == old(self).capture_stub
   { ExecutionSignal::RuntimeError }
